@@ -138,13 +138,14 @@ let run_case (line : string) : string =
   let ops = Stdlib.List.map words (split_on ';' line) in
   let ops = Stdlib.List.filter (fun o -> o <> []) ops in
   let ingress = Stdlib.List.exists (fun o -> Stdlib.List.mem (Stdlib.List.hd o) ["J"; "JL"]) ops in
-  let scripted = ingress || Stdlib.List.exists (fun o -> Stdlib.List.mem (Stdlib.List.hd o) ["F"; "W"; "Y"; "P"; "K"; "N"]) ops in
+  let scripted = ingress || Stdlib.List.exists (fun o -> Stdlib.List.mem (Stdlib.List.hd o) ["F"; "FH"; "W"; "Y"; "P"; "K"; "N"]) ops in
   let startup = match ops with ("F" :: s :: _) :: _ -> int_of_string s | _ -> 0 in
   (* the leading F / K ops describe the start-up configuration (F only as the first op) *)
   let max_vribs = 3 in
   let startup_vribs =
     let rec go i n = function
       | ("F" :: _) :: tl when i = 0 -> go 1 n tl
+      | ("FH" :: _) :: tl -> go (i + 1) n tl
       | ("K" :: k :: _) :: tl -> go (i + 1) (min max_vribs (int_of_string k)) tl
       | _ -> n in
     go 0 0 ops in
@@ -158,7 +159,9 @@ let run_case (line : string) : string =
       let i k = int_of_string (Stdlib.List.nth toks k) in
       let self = join " " toks in
       match Stdlib.List.hd toks with
-      | "O" | "A" | "Z" | "F" -> Skip
+      (* FH: the next load happens while something else holds the compiled script's mutex - whoever holds it, every
+         unit ends up with the filter of its script (Filter/FilterFetch.v): nothing changes in the model *)
+      | "O" | "A" | "Z" | "F" | "FH" -> Skip
       | "W" -> Script (i 1)
       | "Y" -> Unit2 (i 1)
       | "K" -> Vribs (min max_vribs (i 1))
